@@ -2,5 +2,5 @@ SPECIFICATION Spec
 CONSTANTS
   W = 16
   Variant = "halves"
-INVARIANTS Value NoOverflow LenBound OpRange StartOp OpFitsI8
+INVARIANTS Value NoOverflow LenBound OpRange StartOp PrintLongest
 CHECK_DEADLOCK FALSE
